@@ -1,4 +1,4 @@
-import CDVProofs.ReadSameFull
+import CDVProofs.ToCodeReturns
 /-! # C01 / C09 — the operand tables of a code object survive `from_code` → `to_code` -/
 namespace CDV.Props.C01
 open CDV
@@ -175,6 +175,32 @@ theorem C01_reads_identically_full (v : Ver) (T : OpTable) (F : FlagTable) (dec 
     Spec.read v T c' = Spec.read v T (.mk argc pos kw nl ss fl fln code lt fname name names varnames freevars cellvars consts) :=
   decoded_reads_identically_full v T F dec enc argc pos kw nl ss fl fln code lt fname name names varnames freevars cellvars consts d c'
     hA h hlen hnodup hpos37 hcode hcomp hpre hmin hjs hcn hfn hvalid hteven htbytes htbc htbcOld hT hrne hfit henc
+
+/-- **`to_code()` returns on decoded data** (one nesting level: given that the decodings of the nested code objects
+    encode).  Under the compiler facts of C02 and with every decoded jump designating an existing block: the operand tables
+    are built, both passes and the width loop succeed, the header asserts hold (`varnames` start with the parameters), the
+    line table can be written (before 3.10 every instruction and the additional line have a line), and on 3.7 no
+    positional-only count is produced. -/
+theorem C01_to_code_returns (v : Ver) (T : OpTable) (F : FlagTable) (dec : RawCode → R CodeData) (enc : CodeData → R RawCode)
+    (argc pos kw nl ss fl : Nat) (fln : Int) (code lt : List Nat) (fname name : PStr) (names varnames freevars cellvars : List PStr)
+    (consts : List RConst) (d : CodeData)
+    (h : toCodeDataGo v T F dec (.mk argc pos kw nl ss fl fln code lt fname name names varnames freevars cellvars consts) = .ok d)
+    (hlen : argc + kw + (if fl.testBit bVARARGS then 1 else 0) + (if fl.testBit bVARKEYWORDS then 1 else 0) ≤ varnames.length)
+    (hnodup : (varnames.take (argc + kw + (if fl.testBit bVARARGS then 1 else 0) + (if fl.testBit bVARKEYWORDS then 1 else 0))).Nodup)
+    (hjv : ∀ i ∈ d.blocks.flatten, ∀ t r, i.arg = .jump t r → t < d.blocks.length)
+    (hcode : ∀ x ∈ code, x < 256)
+    (hpre : ∀ raws, parseBytes code = .ok raws → ∀ r ∈ raws, r.nargs ≤ 4)
+    (hvalid : ∀ s ∈ Spec.read v T (.mk argc pos kw nl ss fl fln code lt fname name names varnames freevars cellvars consts),
+      ∀ idx rel, s.arg = .jump idx rel → idx.isSome)
+    (hteven : lt.length % 2 = 0) (htbytes : ∀ x ∈ lt, x < 256)
+    (htbc : v.is310 = true → ∀ x ∈ LT.bytesToItems lt, x.bc % 2 = 0 ∧ x.bc ≠ 255)
+    (htbcOld : v.is310 = false → ∀ cs, LT.collapse false (LT.bytesToItems lt) = some cs → ∀ c ∈ cs, c.bc % 2 = 0)
+    (hrne : Spec.read v T (.mk argc pos kw nl ss fl fln code lt fname name names varnames freevars cellvars consts) ≠ [])
+    (hnested : ∀ K, consts.mapM (fun c => match c with | .inner i => pure (Const.inner i) | .code k => Const.code <$> dec k) = .ok K →
+      ∃ consts', K.mapM (fun c => match c with | .inner i => pure (RConst.inner i) | .code d => RConst.code <$> enc d) = .ok consts') :
+    ∃ c', fromCodeDataGo v F enc d = .ok c' :=
+  decoded_to_code_returns v T F dec enc argc pos kw nl ss fl fln code lt fname name names varnames freevars cellvars consts d
+    h hlen hnodup hjv hcode hpre hvalid hteven htbytes htbc htbcOld hrne hnested
 
 /-- non-vacuity: a 3.8 module body with a conditional forward jump and a backward jump
     (`LOAD_NAME x; POP_JUMP_IF_FALSE 8; LOAD_CONST; JUMP_ABSOLUTE 0; LOAD_CONST; RETURN_VALUE`) decodes into two blocks
